@@ -572,6 +572,9 @@ func (st *Runtime) executeList(list *ListNode) (returnValue reflect.Value) {
 func (st *Runtime) executeTry(try *TryNode) (returnValue reflect.Value) {
 	writer := st.Writer
 	buf := new(bytes.Buffer)
+	// a panic skips the code that restores scope, context and yield content after
+	// a range, if, block or yield, so remember what they are before the try body runs
+	scope, context, content := st.scope, st.context, st.content
 
 	defer func() {
 		r := recover()
@@ -580,6 +583,7 @@ func (st *Runtime) executeTry(try *TryNode) (returnValue reflect.Value) {
 		if r == nil {
 			io.Copy(writer, buf)
 		} else {
+			st.scope, st.context, st.content = scope, context, content
 			// st.Writer is already set to its original value since the later defer ran first
 			if try.Catch != nil {
 				if try.Catch.Err != nil {
